@@ -36,6 +36,7 @@ func rulesC06(c *Ctx) {
 	c06Round2(c, c.P.BuildIndex())
 	c06Round3(c)
 	c06Round4(c, c.P.BuildIndex())
+	pendingFallbackRule(c, "C06.guard")
 	c06Borrowed(c)
 	const rule = "C06.guard"
 	api := "storage/mkvs/db/api."
